@@ -37,7 +37,8 @@ let handle line =
   let cmd = next tk in
   match Static_cmds.static_cmd cmd tk with
   | Some r -> r
-  | None -> time_cmd cmd tk
+  | None -> (match Sched_cmds.sched_cmd cmd tk with Some r -> r | None ->
+             (match Build_cmds.build_cmd cmd tk with Some r -> r | None -> time_cmd cmd tk))
 
 let () =
   try
